@@ -192,12 +192,18 @@ class World:
             if self.depth >= 3:
                 return
             self.content += 1
-            p.fire(self.types[op[1]], self.content)
+            if self.content % 3 == 0:
+                p.fire_event(Event(self.types[op[1]], self.content))    # direct form
+            else:
+                p.fire(self.types[op[1]], self.content)
         elif name == "fire_timed":
             if self.depth >= 3:
                 return
             self.content += 1
-            p.fire_timed(op[2], self.types[op[1]], self.content)
+            if self.content % 3 == 0:
+                p.fire_timed_event(TimedEvent(op[2], self.types[op[1]], self.content))
+            else:
+                p.fire_timed(op[2], self.types[op[1]], self.content)
         elif name == "has":
             self.log.append(("has", p.has_listeners()))
         elif name == "bad":
